@@ -211,13 +211,17 @@ structure Data (α : Type) where
   qfrcActuator : List α
   qfrcSmooth : List α
 
+/-- cdof of a hinge/slide joint about the point `c` -/
+def jointCdof (c : V3 α) (j : JointW α) : Motion α :=
+  if j.hinge then dofComRot j.axis (c - j.anchor) else dofComLin j.axis
+
 /-- cdof rows of one body -/
 def cdofBody (l : LinkIn α) (pose : Tf α) (joints : List (JointW α)) (c : V3 α) : List (Motion α) :=
   match l.typ with
   | .free =>
     let e : List (V3 α) := [⟨1, 0, 0⟩, ⟨0, 1, 0⟩, ⟨0, 0, 1⟩]
     e.map dofComLin ++ e.map fun ek => dofComRot (rotate ek pose.rot) (c - pose.pos)
-  | _ => joints.map fun j => if j.hinge then dofComRot j.axis (c - j.anchor) else dofComLin j.axis
+  | _ => joints.map (jointCdof c)
 
 def forwardData (s : Sys α) (q qd ctrl : List α) : Data α :=
   let ins := linkSlices s.types q qd s.dofs
